@@ -3,30 +3,39 @@ from common import COMMON_TB
 CFG = {
     "technique": "Lean 4 theorems (Kahn invariant over the real makeGraph/graphRoots/DependencySort structure, for every DAG "
                  "and every pair of map iteration orders) + output-set-membership differential run against the real "
-                 "wtxmgr.DependencySort and Store.UnminedTxs",
+                 "wtxmgr.DependencySort and Store.UnminedTxs + the same two clauses observed at wallet level on the "
+                 "SendRawTransaction calls of a real Wallet.resendUnminedTxs (engine walletchain-tx)",
     "level_text": "Both clauses of C14 (each exactly once; parents first) are Lean theorems about the model of "
-                  "wtxmgr/kahnsort.go for every finite set of distinct-hash transactions whose spend graph is acyclic and for "
-                  "every order in which Go may iterate the two maps. The model is tied to the Go code by running the real "
-                  "DependencySort and Store.UnminedTxs (real bdb store) many times per generated DAG and checking that every "
-                  "order they return is, for graphs of at most 5 transactions, one of the outputs of the model over all "
-                  "iteration orders, and for all graphs satisfies the specification functions.",
-    "level_note": "Trusted: Lean kernel; the hand model of kahnsort.go (tied by output-set membership on explored graphs only: "
-                  "Go's map order is not observable, so exact trace equality is not available without a hook). Acyclicity is a "
-                  "hypothesis (a transaction hash commits to its inputs, so real transactions cannot form a cycle); on cyclic "
-                  "input the model (and the code) silently drops every transaction on or below a cycle.",
-    "rule": "one evaluation = one order actually returned by the real wtxmgr.DependencySort / Store.UnminedTxs, judged by "
+                  "wtxmgr/kahnsort.go for every finite acyclic set of distinct-hash transactions and every order in which "
+                  "Go may iterate the two maps. Tied to the code by running the real DependencySort and Store.UnminedTxs "
+                  "(real bdb store) many times per generated DAG: every returned order is one of the model's "
+                  "outputs over all iteration orders (<= 5 transactions) and satisfies the specification functions (all "
+                  "graphs). The consumer is checked too: after every resync of a real Wallet the fake backend's call record "
+                  "must show each unconfirmed tx offered once, parents first.",
+    "level_note": "Wallet level (engine walletchain-tx, shared with C06/C20; model Publish.lean, resend theorems in Props/C20): "
+                  "violations are emitted as C14 key=resendUnminedTxs.{not-offered,offered-twice,child-before-parent,"
+                  "not-offered-after-every-resync}. Trusted: Lean kernel; the hand model of kahnsort.go (tied by output-set "
+                  "membership on explored graphs only: Go's map order is not observable without a hook). Acyclicity is a "
+                  "hypothesis (a hash commits to its inputs, so real transactions cannot form a cycle); on cyclic input "
+                  "model and code silently drop every transaction on or below a cycle.",
+    "rule": "engine kahn: one evaluation = one order actually returned by the real wtxmgr.DependencySort / Store.UnminedTxs, judged by "
             "the Go oracles (permutation, parents-first), by the Lean specification functions and, for <= 5 transactions, by "
             "membership in the model's output set over all iteration orders; each evaluation additionally re-runs the real "
-            "code 20-40 times with fresh maps under the Go oracles; distinct_nontrivial = distinct (op line, reply) pairs",
+            "code 20-40 times with fresh maps under the Go oracles. Engine walletchain-tx: one evaluation = one wallet operation "
+            "executed on a real wallet.Wallet and on the Lean model; after every resync/restart op the SendRawTransaction "
+            "calls recorded by the fake backend are judged by the resend oracles. distinct_nontrivial = distinct (op line, reply) pairs",
     "lean_props": ["BtcwVerif.Props.C14"],
     # walletchain-tx: the same two clauses observed on the calls a real Wallet.resendUnminedTxs makes to a fake backend
-    # (violations `C14 key=resendUnminedTxs.*`, emitted next to the C20 ones)
+    # (violations `C14 key=resendUnminedTxs.*`, emitted next to the C20 ones; added for round-2 seed C14-4, see notes/C20.md)
     "engines": ["kahn", "walletchain-tx"],
     "trusted_base": COMMON_TB + [
         "hand-written model BtcwVerif/Model/Kahn.lean of wtxmgr/kahnsort.go (tied by output-set membership for |S| <= 5 and by "
         "specification check for larger S, on explored inputs only)",
         "Go map iteration visits every key exactly once in some order (the two orders are parameters of the model)",
         "map keys handed to DependencySort equal tx.TxHash() (true for Store.UnminedTxs: keys are TxRecord.Hash)",
+        "wallet level: the fake backend's own record of SendRawTransaction calls (harness/engines/walletchaintx) is the observation of "
+        "what resendUnminedTxs offered; the end of a re-broadcast round is detected from the fake's counters and the wallet's log lines; "
+        "hand model BtcwVerif/Model/Publish.lean (dependencySort layer by layer) tied by the same differential run as C20",
     ],
     "assumptions": [
         "transaction hashes are modelled as natural numbers; only equality of hashes is used",
